@@ -7,7 +7,7 @@ Rec(c) == hist' = Append(hist, c) /\ UNCHANGED done
 GNext ==
   \E coin \in {RandomElement(1..10)} :
     IF coin <= 1 THEN \E s \in SlotIds, kp \in KeyPairs : Initialize(s, kp) /\ Rec(Cmd("init", s, kp, 0, 0, ""))
-    ELSE IF coin <= 4 THEN \E n, o \in SlotIds, kn, ko \in KeyPairs : AddSlot(n, kn, o, ko) /\ Rec(Cmd("add", n, kn, o, ko, ""))
+    ELSE IF coin <= 4 THEN \E n, o \in SlotIds, kn \in KeyPairs \cup {0}, ko \in KeyPairs : AddSlot(n, kn, o, ko) /\ Rec(Cmd("add", n, kn, o, ko, ""))
     ELSE IF coin <= 5 THEN \E s \in SlotIds, kp \in KeyPairs : DeleteSlot(s, kp) /\ Rec(Cmd("delete", s, kp, 0, 0, ""))
     ELSE IF coin <= 8 THEN \E s \in SlotIds, kp \in KeyPairs : GetMaster(s, kp) /\ Rec(Cmd("get", s, kp, 0, 0, ""))
     ELSE IF coin <= 9 THEN (UNCHANGED vars /\ Rec(Cmd("roundtrip", 0, 0, 0, 0, "")))
